@@ -515,7 +515,7 @@ def run(ctx):
         k_rules(F, ctx)
     except AnchorError as e:
         ctx.rule("C05-K", "slot refresh rules").broken(str(e))
-    ctx.run("C05-T1", "typestate: every hand-over function returns only solutions whose routes were accepted after the last mutation", t1_handover, floor=30)
+    ctx.run("C05-T1", "typestate: every hand-over function returns only solutions whose routes were accepted after the last mutation", t1_handover, floor=25)
     ctx.run("C05-I1", "tour insertion in evaluator/insertion code is followed by goal.accept_* on every path", i1_insert_then_accept, floor=2)
     ctx.extra["slots"] = {"route": len({o.key for o in kv.ops(F) if o.store == "route"}),
                           "solution": len({o.key for o in kv.ops(F) if o.store == "solution"}),
